@@ -277,4 +277,14 @@ WITNESSES = [
     dict(id="c07-ok-F33-swap-inverted-test", prop="C07", file="sympy_objects.py", expect=None,
          old=_NAMES + "                if lower_names < upper_names:\n                    return True\n",
          new=_NAMES + "                return not upper_names <= lower_names\n"),
+
+    # positions of delta / operator indices paired with an unbounded itertools.repeat
+    dict(id="c07-ok-operator-positions-zip-repeat", prop="C07", file=E, expect=None,
+         old="            for s in self.idx:\n                if s not in ret:\n                    ret[s] = []\n                ret[s].append(description)\n",
+         new="            from itertools import repeat\n            for s, pos in zip(self.idx, repeat(description)):\n"
+             "                ret.setdefault(s, []).append(pos)\n"),
+    # ... and the breaking counterpart: every operator index gets the position list of the first one (shared list)
+    dict(id="c07-operator-positions-dropped", prop="C07", file=E, expect="R07e",
+         old="            for s in self.idx:\n                if s not in ret:\n                    ret[s] = []\n                ret[s].append(description)\n",
+         new="            for s in self.idx[:1]:\n                if s not in ret:\n                    ret[s] = []\n                ret[s].append(description)\n"),
 ]
